@@ -27,6 +27,8 @@ def module(init, mx, imported=False):
     m.add_func('', 'i', (), memory_size(), export='size')
     m.add_func('ii', '', (), local_get(0) + local_get(1) + memop(0x36, 2, 0), export='store')
     m.add_func('i', 'i', (), local_get(0) + memop(0x28, 2, 0), export='load')
+    m.add_func('iii', '', (), local_get(0) + local_get(1) + local_get(2) + memory_fill(), export='fill')
+    m.add_func('iii', '', (), local_get(0) + local_get(1) + local_get(2) + memory_copy(), export='copy')
     return m.encode()
 
 
@@ -74,9 +76,12 @@ def spec_apply(state, o, mx):
     if o['kind'] == 'z':
         return pages, state
     c = dict(cells)
-    if o['kind'] == 'w':
+    if o['kind'] in ('w', 'f'):
         c[o['arg']] = o['res']
         return o['res'], (pages, tuple(sorted(c.items())))
+    if o['kind'] == 'c':
+        c[o['arg']] = c.get(o['arg'] + 8, 0)
+        return 0, (pages, tuple(sorted(c.items())))
     return c.get(o['arg'], 0), state
 
 
@@ -183,6 +188,11 @@ def make_cases(tier):
         for a, b in (('g1', 'z'), ('g1', 'g1'), ('g2', 'g5')):
             add((1, 4), [with_data([a], 1, False), with_data([b], 2, True)], 2)
             add((1, 4), [[a], ['w0', 'r0', b]], 2)
+        # bulk operations (memory.fill / memory.copy read the memory descriptor too) next to grow
+        for a in ('g1', 'g2'):
+            add((1, 4), [[a], ['w24', 'f16', 'c16', 'r16']], 2)
+            add((1, 4), [[a, 'z'], ['f40', 'r40']], 2)
+            add((1, 4, 'imported'), [[a], ['f16', 'c8', 'r8']], 2)
         # three threads, one operation each, bound 2
         for t in itertools.combinations_with_replacement(['g1', 'g2', 'z', 'g5'], 3):
             add((1, 4), [[x] for x in t], 2)
